@@ -357,9 +357,16 @@ impl<'a, 'tcx> BodyCx<'a, 'tcx> {
                 let k = match &**kind {
                     AggregateKind::Adt(did, vi, _, _, _) => {
                         let def = tcx.adt_def(*did);
+                        let discr: i128 = if def.is_enum() {
+                            def.discriminant_for_variant(tcx, *vi).val as i128
+                        } else {
+                            0
+                        };
                         J::obj(vec![
                             ("adt", J::s(dpath(tcx, *did))),
                             ("variant", J::s(def.variant(*vi).name.to_string())),
+                            ("discr", J::Int(discr)),
+                            ("is_enum", J::Bool(def.is_enum())),
                             (
                                 "fields",
                                 J::Arr(
